@@ -125,10 +125,12 @@ def run_history(case):
             elif op == "reuse_same" and objs:
                 u = pick(objs).uid
                 # the identifier in any spelling the constructors accept
-                if a % 5 == 4:  # through the attribute key the file loader uses
-                    bad = refused(ws, tag, lambda: Points.create(ws, name=fresh("dupP"), vertices=np.zeros((2, 3)), ID=u, parent=pick(grps) or ws.root))
+                spellings = [u, str(u), "{" + str(u) + "}", str(u).upper(), u.hex, u.urn]  # everything uuid.UUID() parses
+                if a % 8 >= 6:  # through the attribute key the file loader uses (canonical, then bare hex digits)
+                    uu = u if a % 8 == 6 else u.hex
+                    bad = refused(ws, tag, lambda: Points.create(ws, name=fresh("dupP"), vertices=np.zeros((2, 3)), ID=uu, parent=pick(grps) or ws.root))
                 else:
-                    u = [u, str(u), "{" + str(u) + "}", str(u).upper()][a % 5]
+                    u = spellings[a % 8]
                     bad = refused(ws, tag, lambda: Points.create(ws, name=fresh("dupP"), vertices=np.zeros((2, 3)), uid=u, parent=pick(grps) or ws.root))
             elif op == "reuse_type" and objs:
                 # a type asked to carry the identifier of a live type of another class
@@ -254,7 +256,7 @@ class IdentifierHistories(Contract):
     has_native = True
     native_shards = 4
     props = ("C06",)
-    bounded_scope = ("two file-backed workspaces; sequences of 5-10 operations over {create points/group/data/property group, create with an identifier in use by the same kind (given as UUID, text, braced or upper-case text, or through the 'ID' attribute key) / a type with the identifier of a type of another class / "
+    bounded_scope = ("two file-backed workspaces; sequences of 5-10 operations over {create points/group/data/property group, create with an identifier in use by the same kind (given as UUID, text, braced, upper-case, bare-hex or URN text, or through the 'ID' attribute key) / a type with the identifier of a type of another class / "
                      "another kind / a property group, property group with an object's or data's identifier, data with its parent's or a group's identifier, copy within / into the other workspace (also after the source gained new property groups, so that identifiers are free and taken in the same copy), a data type copied into the other workspace, (twice, also after removing the earlier copy there), remove, re-create with the "
                      "freed identifier, re-open, gc}: 22 fixed + 60 seeded (quick) / 800 seeded (thorough); uniqueness, lookup, refusal-without-side-effects and type sharing after every step")
 
@@ -280,6 +282,8 @@ class IdentifierHistories(Contract):
         [("points", 0), ("data", 0), ("pgroup", 0), ("copy_other", 0), ("remove_other", 0), ("gc", 0), ("copy_other", 0), ("copy_other_again", 0)],
         [("points", 0), ("points", 0), ("remove", 0), ("gc", 0), ("recreate", 0), ("reopen", 0), ("reuse_cross", 0)],
         [("points", 0), ("reopen", 0), ("reuse_same", 0), ("reuse_cross", 0)],
+        [("points", 0), ("reuse_same", 4), ("reuse_same", 5), ("reuse_same", 6), ("reuse_same", 7), ("reopen", 0)],
+        [("group", 0), ("points", 0), ("reopen", 0), ("reuse_same", 5), ("reuse_same", 7), ("reuse_same", 4)],
         [("group", 0), ("points", 0), ("data", 0), ("copy_same", 0), ("reopen", 0), ("copy_other", 1), ("reuse_data", 1)],
     ]
 
@@ -288,7 +292,7 @@ class IdentifierHistories(Contract):
             yield {"ops": ops}
         for _ in range(60 if tier == "quick" else 800):
             n = rng.randint(5, 10)
-            ops = [("points", 0)] + [(rng.choice(OPS), rng.randint(0, 4)) for _ in range(n)]
+            ops = [("points", 0)] + [(rng.choice(OPS), rng.randint(0, 7)) for _ in range(n)]
             yield {"ops": ops}
 
     def native_check(self, case):
@@ -433,6 +437,10 @@ class CopyIdentifiersByKind(Contract):
 
         for kind in KINDS:
             yield {"kind": kind}
+        # any text is a valid name, the empty one included: identifier bookkeeping does not go by names
+        for kind in ("points", "curve", "grid2d", "group"):
+            for name in ("", " "):
+                yield {"kind": kind, "name": name}
 
     @staticmethod
     def _family(ent):
@@ -469,18 +477,24 @@ class CopyIdentifiersByKind(Contract):
         try:
             with Workspace.create(os.path.join(d, "src.geoh5")) as ws, Workspace.create(os.path.join(d, "dst.geoh5")) as other:
                 obj = build(ws, case["kind"])
+                if case.get("name") is not None:
+                    obj.name = case["name"]
                 mine = self._family(obj)
-                first = self._family(obj.copy(parent=other))
+                try:
+                    first_copy, second_copy, same_copy = obj.copy(parent=other), obj.copy(parent=other), obj.copy()
+                except Exception as exc:
+                    return f"copying a {case['kind']} named {obj.name!r} (into an empty workspace, there again, then inside its own workspace) raised {type(exc).__name__}: {exc} ({case})"
+                first = self._family(first_copy)
                 for name, uid in mine.items():
                     if any(r in name for r in rebuilt) or name not in first:
                         continue
                     if first[name] != uid:
                         return f"copy of a {case['kind']} into an empty workspace: '{name}' got the fresh identifier {first[name]} although {uid} was free there ({case})"
-                second = self._family(obj.copy(parent=other))
+                second = self._family(second_copy)
                 clash = set(second.values()) & set(first.values())
                 if clash:
                     return f"second copy of a {case['kind']} into the same workspace re-uses identifiers that are taken there: {sorted(map(str, clash))[:2]} ({case})"
-                same = self._family(obj.copy())
+                same = self._family(same_copy)
                 clash = set(same.values()) & set(mine.values())
                 if clash:
                     return f"copy of a {case['kind']} inside its workspace re-uses identifiers of the originals: {sorted(map(str, clash))[:2]} ({case})"
